@@ -90,12 +90,13 @@ func (h *httpHandler) ServeHTTP(w http.ResponseWriter, r *http.Request) {
 		return
 	}
 
-	var wg sync.WaitGroup
+	// firstRun is closed when the first run of the computation is over.
+	firstRun := make(chan struct{})
+	var firstRunOnce sync.Once
 	e := h.executor
 
-	wg.Add(1)
 	runner := reactive.NewRerunner(r.Context(), func(ctx context.Context) (interface{}, error) {
-		defer wg.Done()
+		defer firstRunOnce.Do(func() { close(firstRun) })
 
 		ctx = batch.WithBatching(ctx)
 
@@ -128,6 +129,12 @@ func (h *httpHandler) ServeHTTP(w http.ResponseWriter, r *http.Request) {
 		return nil, nil
 	}, DefaultMinRerunInterval, false)
 
-	wg.Wait()
+	// The rerunner never runs the computation if the request's context is
+	// already canceled; do not wait for a first run that will not happen.
+	select {
+	case <-firstRun:
+	case <-r.Context().Done():
+	}
+	// Stop waits for a computation that is in flight.
 	runner.Stop()
 }
